@@ -715,6 +715,16 @@ MUTANTS = [
         """    BackRefIdx backRefIdx = BackRefIdx::newBackRef(/*largeObj=*/false);
 
     StartupBlock *block""")]),
+    dict(name='c17-seed4-calloc-skips-memset-for-huge-blocks', prop='C17', clause='D2', edits=[('src/tbbmalloc/frontend.cpp',
+        """    if (result)
+        memset(result, 0, arraySize);
+    else
+        errno = ENOMEM;""",
+        """    if (result) {
+        if (arraySize <= LargeObjectCache::defaultMaxHugeSize)
+            memset(result, 0, arraySize);
+    } else
+        errno = ENOMEM;""")]),
     dict(name='c01-seed3-run-and-wait-handle-epilogue-on-exception-only', prop='C01', clause='D9', edits=[('include/oneapi/tbb/task_group.h',
         """            execute_and_wait(*acs::release(h), context(), m_wait_vertex.get_context(), context());
         }).on_completion([&] {""",
@@ -1638,6 +1648,18 @@ BENIGN = [
         } guard{handler_busy};
         // handle all the operations
         handle_operations(op_list);""")]),
+    dict(name='c17-b-calloc-null-test-first', prop='C17', edits=[('src/tbbmalloc/frontend.cpp',
+        """    if (result)
+        memset(result, 0, arraySize);
+    else
+        errno = ENOMEM;
+    return result;""",
+        """    if (!result) {
+        errno = ENOMEM;
+        return nullptr;
+    }
+    memset(result, 0, arraySize);
+    return result;""")]),
     dict(name='c01-b-group-wait-epilogue-in-a-named-lambda', prop='C01', edits=[('include/oneapi/tbb/task_group.h',
         """        try_call([&] {
             d1::wait(m_wait_vertex.get_context(), context());
